@@ -637,6 +637,12 @@ impl<Controller: SourceController> NtpSource<Controller> {
             // to denial of service attacks.
             debug!("Received old/unexpected packet from source");
             actions!()
+        } else if self.nts.is_some() && message.is_kiss_ntsn() {
+            // An NTS NAK is unauthenticated by nature (it is matched on the untrusted
+            // unique identifier), so nothing else it carries (a rate or deny kiss, a
+            // poll interval) may be acted upon by an NTS source.
+            warn!("Received nts not-acknowledge");
+            actions!()
         } else if message.is_kiss_rate(self.last_poll_interval) {
             // KISS packets may not have correct timestamps at all, handle them anyway
             self.remote_min_poll_interval = Ord::max(
